@@ -55,6 +55,7 @@ Candidates(a) ==
     \cup {Node("relu", <<p>>, 0, FALSE, FALSE) : p \in T(a) \ {0}}
     \cup {Node("pool", <<p>>, 0, FALSE, FALSE) : p \in {t \in NF(a) \ {0} : Sp(a, t) >= 2}}
     \cup {Node("flat", <<p>>, 0, FALSE, FALSE) : p \in NF(a)}
+    \cup (IF Dim = 1 THEN {[Node("gsq", <<p>>, 0, FALSE, FALSE) EXCEPT !.d = dd] : p \in NF(a) \ {0}, dd \in {2, -1}} ELSE {})
     \cup {Node("add", <<pq[1], pq[2]>>, 0, FALSE, FALSE) : pq \in AddPairs(a)}
     \cup {Node("cat", <<pq[1], pq[2]>>, 0, FALSE, FALSE) : pq \in CatPairs(a)}
     \cup (IF AllowCat3 THEN {Node("cat", <<t[1], t[2], t[3]>>, 0, FALSE, FALSE) : t \in CatTriples(a)} ELSE {})
